@@ -2,7 +2,7 @@
 # Generates /verif/MANIFEST.json from the table below (kept in one place so that claims, notes and not_applicable stay in sync).
 import json, subprocess
 claims = {
- "C02": ("block-level code under nopanic/terminates contracts - node BeginBlocker (under coherent validated parameters and the pool ratio, which every pool writer re-establishes), node EndBlock, model EndBlocker, genesis import of all six modules, reward math, provider selection, schedule writers, HandleExpiredShard (under a stated per-shard condition), termination of every loop of HandleTimeoutOrder: every panicking operation and every loop in those functions is an obligation; the two loops of sao.EndBlocker compose these per-item results by a meta-argument", "DESIGN.md 6 C02"),
+ "C02": ("block-level code under nopanic/terminates contracts - node BeginBlocker (under coherent validated parameters and the pool ratio, which every pool writer re-establishes), node EndBlock, model EndBlocker, genesis import of all six modules, reward math, provider selection, schedule writers, HandleExpiredShard (under a stated per-shard condition), termination of every loop of HandleTimeoutOrder: every panicking operation and every loop in those functions is an obligation; the two loops of sao.EndBlocker compose these per-item results by a meta-argument; the per-shard condition of HandleExpiredShard is also evaluated on the real state before every end blocker run of 18 bounded histories (labelled bounded)", "DESIGN.md 6 C02"),
  "C04": ("functional contracts of the escrow hops (Store charge = quoted price rounded up, renewal quote and charge, worker accrual, claim, deposit, order refund/termination, payment address, hand-over of serving order, queued renewals and end height when a migrated shard is completed) discharged for all inputs", "DESIGN.md 6 C04"),
  "C05": ("postconditions of cancellation (Cancel handler, CancelOrder, RefundOrder, RollbackMeta) taken from the statement, discharged for all orders, shard lists and metadata states", "DESIGN.md 6 C05"),
  "C06": ("ledger/bank pairing clauses on the functions that move escrowed coins (DID balances, order refunds, pledge, release, claim)", "DESIGN.md 6 C06"),
